@@ -57,6 +57,9 @@ type Step struct {
 	MaxFrame int  `json:"max_frame,omitempty"` // settings: -1 unchanged
 	TableSz  int  `json:"table_size,omitempty"`
 	Code   int    `json:"code,omitempty"`
+	// Oversize (data): the sender does not cut the frame to the SETTINGS_MAX_FRAME_SIZE it was told (its view of the
+	// limit may be stale, or it simply does not care): whatever size arrives, the relay must cut it for the receiver.
+	Oversize bool `json:"oversize,omitempty"`
 }
 
 type H2Case struct {
@@ -102,6 +105,7 @@ func genSteps(t *rapid.T, c *H2Case, flow bool) {
 				s.Pad = rapid.SampledFrom([]int{0, 1, 5, 100, 255}).Draw(t, "pad")
 			}
 			s.End = rapid.IntRange(0, 5).Draw(t, "end") == 0
+			s.Oversize = s.Len > 16384 && rapid.Bool().Draw(t, "oversize")
 		case k < 11:
 			s.Op = "headers"
 			s.Hdr = rapid.IntRange(0, len(headerLists)-1).Draw(t, "hdr")
@@ -710,7 +714,7 @@ func (r *h2run) step(c H2Case, s Step) bool {
 		self.mu.Lock()
 		maxF := self.peerMaxFrm
 		self.mu.Unlock()
-		if flow > maxF {
+		if flow > maxF && !s.Oversize {
 			return true // not sendable as one frame; skip
 		}
 		self.mu.Lock()
@@ -1214,6 +1218,9 @@ func classifyH2(c H2Case) (bool, string, []string) {
 		case "data":
 			if s.Pad >= 0 {
 				pad = true
+			}
+			if s.Oversize {
+				cls = append(cls, "oversize-data-frame")
 			}
 			perStream[s.Stream]++
 			sides[s.Side] = true
